@@ -260,7 +260,9 @@ JudgeOut judge(const json &plan)
 			if (o.start_cond_before != 0)
 				out.k.add("probe.parse_begun_outside_INITIAL");
 			if (o.inc_depth_before != 0)
-				out.k.add("probe.parse_begun_with_nonempty_include_stack");
+				out.k.add("parse_begun_with_nonempty_include_stack");
+			if (o.ret != 0 && !o.diags.empty() && o.diags[0].file.compare(0, 5, "/inc/") == 0)
+				out.k.add("probe.parse_failed_inside_included_file");
 		}
 	}
 	std::string hist;
@@ -369,7 +371,7 @@ Property P = [] {
 		 "x 1-2 contexts, followed by 2-4 probes from a fixed set of 9; distinct = distinct event-kind sequences (the history), all non-trivial";
 	p.assumptions = {"the probe set and event texts are fixed by the generator; outcomes compared are return code, diagnostics (file,line) and the canonical dump",
 			 "O-scrub resets the scanner object's .data/.bss, cfg_yylval and errno between API calls; a correct library cannot observe that"};
-	p.probes = {"parse_begun_outside_INITIAL", "parse_begun_with_nonempty_include_stack", "two_clients_interleaved"};
+	p.probes = {"parse_begun_outside_INITIAL", "parse_failed_inside_included_file", "two_clients_interleaved"};
 	p.components = {{"confuse.c", "real"}, {"lexer.l (flex 2.6.4 generated)", "real"}, {"glibc stdio/strtol/strtod", "real"}, {"allocator", "stub: accounting wrappers over the real heap"},
 			{"file namespace (fopen/stat)", "stub: in-memory tree"}, {"getenv", "stub: simulated environment"}, {"user callbacks", "stub: simulator parties"}, {"exit/abort/assert", "stub: recorded and unwound"}};
 	p.quick_seconds = 20;
